@@ -29,6 +29,9 @@ T = {
     'C20-1': ('C20', 'RISING->FALLING keeps the success count: DOWN after fewer than fall failures', 'rise >= 3, a failure after >= 2 successes in RISING', ['C20: deductive, clause post:11 (counter invariant) of loop.one; bounded histories']),
     'C20-2': ('C20', 'no withdraw when stopped in INIT/RISING/FALLING', 'stop (SIGTERM / Ctrl-C) during a transient state', ['C20: deductive, clause final:0 of loop.sigterm_handler and post:0 of loop#main; bounded histories']),
     'C20-3': ('C20', '--disabled-community ignored unless --community is set', 'disabled-community without community, reaching DOWN/DISABLED', ['C20: deductive, clause line:template of loop.exabgp#a; bounded histories']),
+    'C04-1': ('C04', 'a withdraw cancels the queued announce using the WITHDRAW\'s attribute index instead of the queued route\'s', 'announce p med 50 then withdraw p with different non-empty attributes in one window', ['C04: bounded operation-sequences (outside the known-finding region: one attribute set per window)']),
+    'C04-2': ('C04', 'announce queues snapshotted late in updates()', 'generator suspended after a withdraw, then withdraw p + announce p', ['C04: bounded operation-sequences (partial consumption points)']),
+    'C04-3': ('C04', 'clear adj-rib-out drops the withdraw of a route whose re-announce is still queued', 'p sent, re-announced with new attributes, then clear in the same window', ['C04: bounded operation-sequences']),
 }
 for sid, (pid, what, needs, caught) in T.items():
     d = os.path.join(ROOT, 'seeded', sid)
